@@ -92,6 +92,12 @@ static void reb_simulation_add_local(struct reb_simulation* const r, struct reb_
 	if (reb_simulation_add_local_store(r, pt)==0){
 		return;
 	}
+    if (r->integrator == REB_INTEGRATOR_IAS15){
+        // The predictor and compensated-summation arrays are per particle slot. Forget them when the set of particles changes,
+        // so that no slot can ever be used with the history of another particle (and so that it cannot matter whether the
+        // simulation was saved/served/copied, which trims N_allocated, between a removal and an addition).
+        reb_integrator_ias15_reset(r);
+    }
     if (r->integrator == REB_INTEGRATOR_MERCURIUS){
         struct reb_integrator_mercurius* rim = &(r->ri_mercurius);
         if (r->ri_mercurius.mode==0){ //WHFast part
@@ -394,6 +400,9 @@ int reb_simulation_remove_particle(struct reb_simulation* const r, int index, in
     if (keep_sorted && r->tree_root){
         reb_simulation_error(r, "REBOUND cannot remove a particle a tree and keep the particles sorted. Did not remove particle.");
         return 0;
+    }
+    if (r->integrator == REB_INTEGRATOR_IAS15){
+        reb_integrator_ias15_reset(r); // see reb_simulation_add_local
     }
     if (r->integrator == REB_INTEGRATOR_MERCURIUS){
         struct reb_integrator_mercurius* rim = &(r->ri_mercurius);
